@@ -283,7 +283,8 @@ def do_op(op, states, workdir):
             kw["time"] = True
         r = st.fit(data, **kw)
         if ev is not None and r is None:  # what the evaluator recorded is an outcome of the training run (compared between runs)
-            return Extra([[int(e), v] for e, v in cbs[0].past_values])
+            e = cbs[0]  # read back through the evaluator's public accessors only
+            return Extra([[int(ep), {nm: e.get_value(nm, i) for nm in e.names}] for i, ep in enumerate(e.epochs)])
         return r
     if t == "eval":
         w = op["what"]
